@@ -159,6 +159,17 @@ pub fn dispatch(op: &str, args: &[&str]) -> String {
                 None => "ERR".into(),
             }
         }
+        "legalafter" => {
+            // play a line with the board's own make, then list the legal moves of the position reached
+            let Some(mut b) = board_from(args[0]) else { return "badfen".into() };
+            for uci in &args[1..] {
+                match b.generate_legal_moves().into_iter().find(|m| m.to_uci_string() == *uci) {
+                    Some(mv) => b.make(mv),
+                    None => return format!("ERR {}", uci),
+                }
+            }
+            format!("{} {}", fen_out(&b), sorted_join(b.generate_legal_moves().iter().map(Move::to_uci_string).collect()))
+        }
         "succ" => {
             let Some(mut b) = board_from(args[0]) else { return "badfen".into() };
             let mut out = Vec::new();
